@@ -617,7 +617,7 @@ func (w *Writer) Write(f feat.Feature) (n int, err error) {
 				_n, err = fmt.Fprintf(w.w, "%.*f", w.Precision, *f.FeatScore)
 			}
 			if err != nil {
-				return n, err
+				return n + _n, err
 			}
 			n += _n
 		} else {
@@ -638,7 +638,7 @@ func (w *Writer) Write(f feat.Feature) (n int, err error) {
 		if f.FeatAttributes != nil {
 			_n, err = fmt.Fprintf(w.w, "\t%v", f.FeatAttributes)
 			if err != nil {
-				return n, err
+				return n + _n, err
 			}
 			n += _n
 		} else if f.Comments != "" {
